@@ -95,6 +95,19 @@ def run(ctx):
             v3, raw3 = read_varbyteint_return(s3)
             if v3 != v or s3.tell() != sz or raw3 != (b + b'\x00' * 9)[:sz]:
                 py += ' stream-reader-return-differs(%d,%d,%s)' % (v3, s3.tell(), raw3.hex())
+            # the same on a stream that ENDS with the integer or a few bytes after it (the last field of a stream)
+            if len(b) >= sz:
+                for tail_ in (b'', b'\xa1', b'\xa1\xb2\xc3'):
+                    data_ = b[:sz] + tail_
+                    s4 = BytesIO(data_)
+                    v4, raw4 = read_varbyteint_return(s4)
+                    rest4 = s4.read()
+                    s5 = BytesIO(data_)
+                    v5 = read_varbyteint(s5)
+                    rest5 = s5.read()
+                    if v4 != v or raw4 != b[:sz] or rest4 != tail_ or v5 != v or rest5 != tail_:
+                        py += ' stream-end-differs(%d,%s,%s|%d,%s)' % (v4, raw4.hex(), rest4.hex(), v5, rest5.hex())
+                        break
         cases.append(('cs_dec %s' % hexp(b), py, True))
     ctx.compare(cases, 'boundary')
 
